@@ -32,8 +32,10 @@ MANIFEST = {
 }
 PROPERTY_FILES = ['Properties/C20.v']
 REFUTED_FILES = ['Refuted/C20.v']
-MODEL_FILES = ['Gen/Gen_c20.v', 'SF/RelJoin.v', 'SF/RelJoinVal.v', 'SF/RelShift.v', 'SF/RelShiftVal.v', 'SF/RelStack.v', 'SF/RelStackVal.v', 'SF/RelPivot.v', 'SF/RelPivotVal.v', 'Proofs/RelExamples.v']
-IMPORTS = 'Require Import SF.Prelude SF.Dtype SF.Value Gen.Gen_c20 SF.RelJoin SF.RelJoinVal SF.RelShift SF.RelShiftVal SF.RelStack SF.RelStackVal SF.RelPivot SF.RelPivotVal.'
+MODEL_FILES = ['Gen/Gen_c20.v', 'SF/RelJoin.v', 'SF/RelJoinVal.v', 'SF/RelShift.v', 'SF/RelShiftVal.v', 'SF/RelStack.v', 'SF/RelStackVal.v', 'SF/RelStackGenVal.v', 'SF/RelPivot.v', 'SF/RelPivotVal.v', 'Proofs/RelExamples.v']
+IMPORTS = 'Require Import SF.Prelude SF.Dtype SF.Value Gen.Gen_c20 SF.RelJoin SF.RelJoinVal SF.RelShift SF.RelShiftVal SF.RelStack SF.RelStackVal SF.RelStackGenVal SF.RelPivot SF.RelPivotVal.'
+# the specification checkers (every `s=` term) live in files that do NOT depend on Gen/Gen_c20.v: used when the model / generation is broken
+IMPORTS_SPEC_ONLY = 'Require Import SF.Prelude SF.Dtype SF.Value SF.RelJoin SF.RelJoinVal SF.RelShift SF.RelShiftVal SF.RelStack SF.RelStackVal SF.RelPivot SF.RelPivotVal.'
 RULE = ('exhaustive strata: every key assignment of <=2 (quick) / <=3 (thorough) rows per side over two key values x 4 join types x composite on/off; one many-to-many '
         'and one inner join through every block layout of both sides; every (index key, column key) assignment over {a,b}x{x,y} for <=3/4 rows x sum/len/first through '
         'pivot; relabel_shift_in for every ordered key selection of <=2 of 4 columns on auto / named / hierarchical indices in every layout (thorough), each followed by '
@@ -331,7 +333,7 @@ def join_case(ctx, stratum, jt, composite, spec_l, spec_r, kw, fill, templates, 
         out = f'(ErrJ {lit.s(lit.err_class(e))})'
     many, aligned = join_dom(jt, composite, llabels, lkeys, rlabels, rkeys)
     comp_term = f'(gen_composite {lit.s("join_" + jt)})' if defaults else lit.b(composite)
-    args = (f'{JT[jt]} {comp_term} {lit.val(cifv)} {lit.val(fill)} {_tmpl(templates[0])} {_tmpl(templates[1])} '
+    args = (f'{JT[jt]} @COMP@ {lit.val(cifv)} {lit.val(fill)} {_tmpl(templates[0])} {_tmpl(templates[1])} '
             f'{lit.lst([lit.s(str(c)) for c in spec_l[0]])} {lit.lst([lit.s(str(c)) for c in spec_r[0]])} '
             f'{trows_lit(llabels, lkeys, lrows)} {trows_lit(rlabels, rkeys, rrows)}')
     card = 'many' if many else 'one-to-one'
@@ -341,6 +343,8 @@ def join_case(ctx, stratum, jt, composite, spec_l, spec_r, kw, fill, templates, 
     tags = {'op': 'join', 'join_type': jt, 'composite': composite, 'card': card}
     if not aligned:
         tags['finding'] = F_JOIN
+    args_s = args.replace('@COMP@', lit.b(composite))     # the spec side never reads the regenerated constants
+    args = args.replace('@COMP@', comp_term)
     m_term = f'join_m_ok {args} {out}'
     if aligned is None:          # label coercion by the index union: not modelled
         m_term = None
@@ -352,7 +356,7 @@ def join_case(ctx, stratum, jt, composite, spec_l, spec_r, kw, fill, templates, 
                         {'index': _j([_py(tuple(x)) if isinstance(x, tuple) else _py(x) for x in val.index]), 'columns': _j(val.columns.values.tolist()),
                          'rows': _j([list(r) for r in val.iter_tuple(axis=1)])}}
     nontrivial = len(llabels) > 0 and len(rlabels) > 0
-    return Case(stratum, desc, m=m_term, s=f'join_s_ok {args} {out}', tags=tags, nontrivial=nontrivial)
+    return Case(stratum, desc, m=m_term, s=f'join_s_ok {args_s} {out}', tags=tags, nontrivial=nontrivial)
 
 
 def join_exhaustive(ctx):
